@@ -26,6 +26,8 @@ const (
 	c18socksAddr  = "192.0.2.99:1080" // Opt.Socks5 when via=socks5
 	c18bootAddr   = "192.0.2.53"      // Opt.Bootstrap when via=bootstrap (port 53 implied)
 	c18bootAnswer = "198.51.100.77"   // the A record the fake bootstrap server returns for every name
+	c18otherName   = "other.c18.test" // via=bootstrap-two: the host of another upstream that uses the same bootstrap server first
+	c18otherAnswer = "198.51.100.99"  // its address
 	c18glueAddr   = "203.0.113.66"    // glue address in the referral of via=bootstrap-referral: the address of some name server, never of the user's host
 )
 
